@@ -10,7 +10,7 @@ from .. import core
 LEVEL = 'exploration'
 RULE = (
     'calls of the real compiled partition_parallel over N in {0,1,2,15,16,17,1000,1e5}, npartition in {1,2,3,7,64,1000,>N}, coord 0..2, f4/f8, '
-    'weights absent/f4/f8, sort on/off, nthread 1..16 (incl. > N); particle sets: uniform, duplicates, on stripe boundaries +-ulp, at 0 and at BoxSize; '
+    'weights absent/f4/f8 (same or other precision than the positions; f8 weights carry a 1/3 fraction), npartition up to 70001 (beyond 16-bit), sort on/off, nthread 1..16 (incl. > N); particle sets: uniform, duplicates, on stripe boundaries +-ulp, at 0 and at BoxSize; '
     'non-trivial = distinct (N class, npartition, coord, dtype, weights, sort, nthread, particle family) with N>=2'
 )
 ASSUMPTIONS = [
@@ -61,6 +61,8 @@ def one_call(run, tsc, rng, N, npart, coord, dtype, wkind, sort, nthread, family
         w = None
     else:
         w = tag.astype(wkind)
+        if np.dtype(wkind) == np.float64:
+            w = w + 1.0 / 3.0  # not representable in float32: a detour through the positions' precision shows
     if layout == 'strided':
         # non-contiguous views are ordinary arrays to the caller
         big = np.zeros((N, 6), dtype=dtype)
@@ -89,6 +91,8 @@ def one_call(run, tsc, rng, N, npart, coord, dtype, wkind, sort, nthread, family
         return run.violation('partition-output-shape', dict(got=psort.shape, **desc))
     if (w is None) != (wsort is None):
         return run.violation('partition-weights-presence', desc)
+    if w is not None and (wsort.dtype != w0.dtype or wsort.shape != w0.shape):
+        return run.violation('partition-weights-dtype', dict(got=str(wsort.dtype), got_shape=list(wsort.shape), **desc))
     if starts.shape != (npart + 1,) or starts[0] != 0 or starts[-1] != N or (np.diff(starts) < 0).any():
         return run.violation('partition-starts', dict(starts=starts[:20], **desc))
     if core.poison_count(psort.reshape(-1)) or (wsort is not None and core.poison_count(wsort)):
@@ -105,6 +109,9 @@ def one_call(run, tsc, rng, N, npart, coord, dtype, wkind, sort, nthread, family
     if wsort is not None and not np.array_equal(wsort.astype(np.int64), t):
         i = int(np.nonzero(wsort.astype(np.int64) != t)[0][0])
         return run.violation('partition-weight-misaligned', dict(row=i, weight=float(wsort[i]), tag=int(t[i]), **desc))
+    if wsort is not None and N and not np.array_equal(wsort, w0[t - 1]):
+        i = int(np.nonzero(wsort != w0[t - 1])[0][0])
+        return run.violation('partition-weight-value-changed', dict(row=i, weight=repr(wsort[i]), input_weight=repr(w0[t[i] - 1]), **desc))
     # membership
     if N:
         s_ref, near, qr = ref_stripe(psort[:, coord], npart, box)
@@ -119,12 +126,12 @@ def one_call(run, tsc, rng, N, npart, coord, dtype, wkind, sort, nthread, family
         if bad.any():
             i = int(np.nonzero(bad)[0][0])
             return run.violation('partition-wrong-stripe', dict(row=i, x=float(psort[i, coord]), stripe_got=int(s_got[i]), stripe_expected=int(s_ref[i]), nbad=int(bad.sum()), **desc))
-        if sort:
-            for s in range(npart):
-                seg = psort[starts[s] : starts[s + 1], coord]
-                if len(seg) > 1 and (np.diff(seg) < 0).any():
-                    return run.violation('partition-stripe-unsorted', dict(stripe=s, **desc))
-            run.count('sorted_stripes_checked', npart)
+        if sort and N > 1:
+            desc_at = np.nonzero(np.diff(psort[:, coord]) < 0)[0] + 1  # a descent is allowed only where a new stripe starts
+            inside = desc_at[~np.isin(desc_at, starts)]
+            if len(inside):
+                return run.violation('partition-stripe-unsorted', dict(stripe=int(s_got[inside[0]]), row=int(inside[0]), **desc))
+            run.count('sorted_stripes_checked', int(npart))
     return False
 
 
@@ -135,7 +142,7 @@ def check(run):
     Ns = [0, 1, 2, 15, 16, 17, 1000, 100000]
     nps = [1, 2, 3, 7, 64, 1000]
     fams = ['uniform', 'dups', 'boundaries', 'ends']
-    combos = [(np.float32, None), (np.float32, np.float32), (np.float64, np.float64), (np.float64, None), (np.float32, np.float64), (np.float64, np.float32)]
+    combos = [(np.float32, None), (np.float32, np.float32), (np.float64, np.float64), (np.float64, None), (np.float32, np.float64), (np.float64, np.float32)] + ([] if run.quick else [(np.float32, np.int64), (np.float64, np.int32)])
     ncalls = 800 if run.quick else 30000
     k = 0
     # systematic part: every N x thread-count for one configuration each, then random combos
@@ -146,17 +153,24 @@ def check(run):
                 if run.too_many():
                     return
             k += 1
+    # stripe counts beyond the 16-bit and int16 ranges (real grids: ngrid 2048..8192 with narrow stripes, or tests with npartition > N)
+    for npart in (32769, 40000, 65537, 70001):
+        for dtype, wk, nthread in ((np.float32, np.float32, 16), (np.float64, None, 3)):
+            if one_call(run, tsc, rng, 100000, npart, k % 3, dtype, wk, bool(k % 2), nthread, 'uniform', 2000.0):
+                if run.too_many():
+                    return
+            k += 1
     run.sample(dict(N=17, npartition=7, coord=1, dtype='<f4', weights='<f4', sort=True, nthread=16, family='boundaries', box=123.0))
     while k < ncalls:
         N = int(rng.choice(Ns[:-1] if rng.random() < 0.93 else Ns))
         npart = int(rng.choice(nps + [N + 3]))
-        dtype, wk = combos[int(rng.integers(0, len(combos) if not run.quick else 4))]
+        dtype, wk = combos[int(rng.integers(0, len(combos)))]
         if N > 2**24 - 2 and dtype == np.float32:
             continue
         nthread = int(rng.integers(1, 17))
         fam = fams[int(rng.integers(0, 4))]
         box = float(rng.choice([1.0, 123.0, 2000.0]))
-        if one_call(run, tsc, rng, N, npart, int(rng.integers(0, 3)), dtype, wk, bool(rng.integers(0, 2)), nthread, fam, box, layout=(['plain', 'plain', 'strided', 'fortran' if not run.quick else 'plain'][k % 4] if (dtype == np.float32 or not run.quick) else 'plain')):
+        if one_call(run, tsc, rng, N, npart, int(rng.integers(0, 3)), dtype, wk, bool(rng.integers(0, 2)), nthread, fam, box, layout=(['plain', 'plain', 'strided', 'fortran' if not run.quick else 'plain'][k % 4] if ((dtype == np.float32 and wk in (None, np.float32)) or not run.quick) else 'plain')):
             if run.too_many():
                 return
         k += 1
